@@ -10,12 +10,12 @@ open Nstd.Generated
 theorem transformOK : TransformOK := transform_eq_compress
 
 /-- a hasher that behaves like a freshly constructed one: initial hash value, count 0, a 64-byte
-buffer of arbitrary content -/
-def Reusable (p : Sha) : Prop := p.state = Spec.H0 ∧ p.count = 0 ∧ p.buffer.length = 64
+buffer of arbitrary content, and no out-of-range array read recorded so far -/
+def Reusable (p : Sha) : Prop := p.state = Spec.H0 ∧ p.count = 0 ∧ p.buffer.length = 64 ∧ p.ok = true
 
 theorem inv_nil_iff (p : Sha) : Inv [] p ↔ Reusable p := by
   constructor
-  · rintro ⟨full, tail, rest, hm, _, hbuf, hsz, _, hst, hcnt⟩
+  · rintro ⟨full, tail, rest, hm, _, hbuf, hsz, _, hst, hcnt, hok⟩
     have hf : full = [] := by
       cases full with
       | nil => rfl
@@ -23,30 +23,46 @@ theorem inv_nil_iff (p : Sha) : Inv [] p ↔ Reusable p := by
     subst hf
     have ht : tail = [] := by simpa using hm.symm
     subst ht
-    refine ⟨by simpa [hashBlocks_lt] using hst, UInt64.toNat_inj.mp (by simpa using hcnt), by simpa [hbuf] using hsz⟩
-  · rintro ⟨hs, hc, hb⟩
-    exact ⟨[], [], p.buffer, rfl, rfl, rfl, by simpa using hb, by omega, by simp [hs, hashBlocks_lt], by simp [hc]⟩
+    refine ⟨by simpa [hashBlocks_lt] using hst, UInt64.toNat_inj.mp (by simpa using hcnt), by simpa [hbuf] using hsz, hok⟩
+  · rintro ⟨hs, hc, hb, hok⟩
+    exact ⟨[], [], p.buffer, rfl, rfl, rfl, by simpa using hb, by omega, by simp [hs, hashBlocks_lt], by simp [hc], hok⟩
 
-theorem updateLoop_buffer_length : ∀ (data : List UInt8) (cur : Nat) (p : Sha), cur < 64 → p.buffer.length = 64 →
-    (updateLoop data cur p).buffer.length = 64 := by
+/-- the shape every operation preserves, whatever was fed (no bound on the length): 64-byte buffer,
+8 state words, no out-of-range read -/
+def WellFormed (p : Sha) : Prop := p.buffer.length = 64 ∧ p.state.length = 8 ∧ p.ok = true
+
+theorem updateLoop_wellFormed : ∀ (data : List UInt8) (cur : Nat) (p : Sha), cur < 64 → WellFormed p →
+    WellFormed (updateLoop data cur p) := by
   intro data
   induction data with
   | nil => intro cur p _ h; exact h
   | cons b data ih =>
     intro cur p hc h
+    obtain ⟨hb, hs, hok⟩ := h
+    have hb' : (Sha256.wr p.buffer cur b).length = 64 := by rw [wr_length _ _ _ (by omega), hb]
     simp only [updateLoop]
     split
-    · exact ih 0 _ (by omega) (by simp [writeByteBlock, wr_length _ _ _ (by omega : cur < p.buffer.length), h])
-    · exact ih (cur + 1) _ (by omega) (by simp [wr_length _ _ _ (by omega : cur < p.buffer.length), h])
+    · refine ih 0 _ (by omega) ?_
+      rw [writeByteBlock_eq transformOK { p with buffer := Sha256.wr p.buffer cur b, count := p.count + 1 } hs hb']
+      exact ⟨hb', compress_length _ _, hok⟩
+    · exact ih (cur + 1) _ (by omega) ⟨hb', hs, hok⟩
 
-theorem foldl_update_buffer_length (chunks : List (List UInt8)) : ∀ p : Sha, p.buffer.length = 64 →
-    (chunks.foldl update p).buffer.length = 64 := by
+theorem foldl_update_wellFormed (chunks : List (List UInt8)) : ∀ p : Sha, WellFormed p →
+    WellFormed (chunks.foldl update p) := by
   induction chunks with
   | nil => intro p h; exact h
   | cons c cs ih =>
     intro p h
     simp only [List.foldl_cons]
-    exact ih _ (updateLoop_buffer_length _ _ _ (by rw [bufferPos_eq]; omega) h)
+    exact ih _ (updateLoop_wellFormed _ _ _ (by rw [bufferPos_eq]; omega) h)
+
+theorem reusable_wellFormed (p : Sha) (h : Reusable p) : WellFormed p :=
+  ⟨h.2.2.1, by rw [h.1]; exact specH0_length, h.2.2.2⟩
+
+theorem all_inb {α : Type} (l : List α) (n : Nat) (h : l.length = n) :
+    ((List.range n).all fun i => Sha256.inb l i) = true := by
+  simp only [List.all_eq_true, List.mem_range, Sha256.inb, decide_eq_true_eq]
+  intro i hi; omega
 
 /-- every chunking, on every reusable hasher -/
 theorem digest_chunks (p : Sha) (hp : Reusable p) (chunks : List (List UInt8)) (hlen : chunks.flatten.length < 2 ^ 61) :
@@ -71,7 +87,7 @@ theorem map_range_getD {α β : Type} (l : List α) (d : α) (f : α → β) (n 
     simp [List.getD_eq_getElem?_getD, h1]
 
 theorem hmac_eq (key msg : List UInt8) (hk : key.length < 2 ^ 61) (hm : msg.length + 64 < 2 ^ 61) :
-    hmac key msg = Spec.hmacSha256 key msg := by
+    hmac key msg = (Spec.hmacSha256 key msg, true) := by
   -- key normalisation
   have hkey : ∃ sha, Reusable sha ∧
       (if key.length > 64 then ((finalize (update init key)).2, (finalize (update init key)).1 ++ List.replicate 32 0)
@@ -103,6 +119,6 @@ theorem hmac_eq (key msg : List UInt8) (hk : key.length < 2 ^ 61) (hm : msg.leng
   have h2 := digest_chunks _ h1.2 [(Spec.hmacKey key).map (· ^^^ 0x5c), Spec.sha256 ((Spec.hmacKey key).map (· ^^^ 0x36) ++ msg)]
     (by simp [hkl, sha256_length])
   simp only [List.foldl_cons, List.foldl_nil, List.flatten_cons, List.flatten_nil, List.append_nil] at h2
-  rw [h1.1]
-  exact h2.1
+  rw [h1.1, h2.1, h2.2.2.2.2, all_inb _ 64 hkl]
+  rfl
 end Nstd.Sha
